@@ -47,8 +47,8 @@ SCALED_CFGS = {
     "fast-bt4-smalldict": (dict(**BT4), dict(mode="fast", mf="bt4", dict=4096, nice=64)),
     "fast-hc4-bigdict": (dict(Dict=8), dict(mode="fast", mf="hc4", dict=65536)),
     "fast-bt4-bigdict": (dict(Dict=8, **BT4), dict(mode="fast", mf="bt4", dict=65536, nice=273)),
-    "normal-bt4-smalldict": (dict(RawCap=4, **NORMAL, **BT4), dict(mode="normal", mf="bt4", dict=4096)),
-    "normal-hc4-bigdict": (dict(Dict=8, RawCap=4, **NORMAL), dict(mode="normal", mf="hc4", dict=65536)),
+    "normal-bt4-smalldict": (dict(RawCap=4, N=26, **NORMAL, **BT4), dict(mode="normal", mf="bt4", dict=4096)),
+    "normal-hc4-bigdict": (dict(Dict=8, RawCap=4, N=26, **NORMAL), dict(mode="normal", mf="hc4", dict=65536)),
     "lzma1-fast-hc4": (dict(Writer='"lzma1"', N=24), dict(writer="lzma1", mode="fast", mf="hc4", dict=4096)),
     "lzma1-normal-bt4": (dict(Writer='"lzma1"', N=24, **NORMAL, **BT4), dict(writer="lzma1", mode="normal", mf="bt4", dict=4096)),
     "chunksize": (dict(ChunkSize=6, N=24), dict(mode="fast", mf="hc4", dict=4096, chunk_size=300000)),
